@@ -2,6 +2,7 @@ package variants
 
 import (
 	"math"
+	"reflect"
 
 	"github.com/pip-services3-gox/pip-services3-commons-gox/errors"
 )
@@ -26,6 +27,16 @@ func InheritAbstractVariantOperations(overrides IVariantOperationsOverrides) *Ab
 //	Parameters:
 //		- value: a variant type to be converted.
 //	Returns: a string representation of the type.
+// objectsEqual compares two object payloads without panicking on values
+// of types that cannot be compared with == (maps, slices, functions).
+func objectsEqual(value1 any, value2 any) bool {
+	type1 := reflect.TypeOf(value1)
+	if type1 != nil && type1 == reflect.TypeOf(value2) && !type1.Comparable() {
+		return reflect.DeepEqual(value1, value2)
+	}
+	return value1 == value2
+}
+
 func typeToString(value VariantType) string {
 	switch value {
 	case Null:
@@ -642,7 +653,7 @@ func (c *AbstractVariantOperations) Equal(
 		result.SetAsBoolean(date1.Equal(date2))
 		return result, nil
 	case Object:
-		result.SetAsBoolean(value1.AsObject() == value2.AsObject())
+		result.SetAsBoolean(objectsEqual(value1.AsObject(), value2.AsObject()))
 		return result, nil
 	}
 
@@ -707,7 +718,7 @@ func (c *AbstractVariantOperations) NotEqual(
 		result.SetAsBoolean(!date1.Equal(date2))
 		return result, nil
 	case Object:
-		result.SetAsBoolean(value1.AsObject() != value2.AsObject())
+		result.SetAsBoolean(!objectsEqual(value1.AsObject(), value2.AsObject()))
 		return result, nil
 	}
 
